@@ -129,3 +129,94 @@ def run(idx: ProgramIndex, rep: Report, tier: str):
     for c in idx.subclasses(vs) + idx.subclasses(idx.find_class("_VariationalDistribution")):
         funcs += list(c.methods.values())
     aliasing_obligations(idx, rep, "C14-5", funcs, 60, "variational strategy / distribution methods interpreted")
+
+    encoded_consistently(idx, rep)
+
+
+# ---- C14-6: q(u) is what the parameters encode, for every reader and in every mode ---------------------------------------
+RAW_FACTOR_PARAMS = {
+    # parameter -> why only its lower triangle is meaningful
+    "chol_variational_covar": "CholeskyVariationalDistribution documents (and its forward enforces by a mask) that q(u) = N(m, tril(A) tril(A)^T)",
+}
+
+
+def _masked(e: ast.AST) -> bool:
+    """does the (inlined) expression e pass the raw factor through a lower-triangular mask? (`.tril(..)`, torch.tril(..),
+    `.mul(<mask>)` / `* <mask>` with a mask that is itself built by tril of ones)"""
+    if isinstance(e, ast.Call):
+        fn = chain(e.func) or ""
+        if fn in ("torch.tril",) or (isinstance(e.func, ast.Attribute) and e.func.attr in ("tril", "tril_")):
+            return True
+        if isinstance(e.func, ast.Attribute) and e.func.attr in ("mul", "mul_") and e.args:
+            return _is_tril_mask(e.args[0]) or _masked(e.func.value)
+        if isinstance(e.func, ast.Attribute) and e.func.attr in ("to", "contiguous", "clone", "expand", "type_as", "unsqueeze", "squeeze"):
+            return _masked(e.func.value)
+    if isinstance(e, ast.BinOp) and isinstance(e.op, ast.Mult):
+        return _is_tril_mask(e.left) or _is_tril_mask(e.right) or _masked(e.left) or _masked(e.right)
+    return False
+
+
+def _is_tril_mask(e: ast.AST) -> bool:
+    for n in ast.walk(e):
+        if isinstance(n, ast.Call) and ((chain(n.func) or "") == "torch.tril" or (isinstance(n.func, ast.Attribute) and n.func.attr == "tril")):
+            # a mask is tril of ones / ones_like
+            return any(isinstance(x, ast.Call) and (chain(x.func) or "").split(".")[-1] in ("ones", "ones_like", "new_ones") for x in ast.walk(n))
+    return False
+
+
+def _raw_param_in(e: ast.AST) -> Optional[str]:
+    """name of the raw factor parameter that the (inlined) expression e is an alias / shape-only view / product of, if any"""
+    if isinstance(e, ast.Attribute) and e.attr in RAW_FACTOR_PARAMS:
+        return e.attr
+    if isinstance(e, ast.Call):
+        r = _raw_param_in(e.func.value) if isinstance(e.func, ast.Attribute) else None
+        return r or (_raw_param_in(e.args[0]) if e.args else None)
+    if isinstance(e, ast.BinOp):
+        return _raw_param_in(e.left) or _raw_param_in(e.right)
+    return None
+
+
+def encoded_consistently(idx: ProgramIndex, rep: Report):
+    rep.rule("C14-6", "q(u) is what the parameters encode for every reader and in every mode: triangular operators built from the raw Cholesky parameter are masked; variational distributions do not branch on self.training")
+    n = 0
+    for fi in sorted(idx.all_functions(), key=lambda f: (f.module.name, f.qualname)):
+        if not fi.module.name.startswith("gpytorch.variational") and not fi.module.name.startswith("gpytorch.models"):
+            continue
+        if not any((chain(c.func) or "").split(".")[-1] == "TriangularLinearOperator" for c in calls_in(fi.node)):
+            continue
+        from ..symbolic import inline, walk_paths
+        sites: Dict[int, Tuple[ast.Call, str, List[str]]] = {}
+        for path, seq in walk_paths(fi):
+            for st, env in seq:
+                if not isinstance(st, ast.stmt):
+                    continue
+                for c in (x for x in ast.walk(st) if isinstance(x, ast.Call)):
+                    if (chain(c.func) or "").split(".")[-1] == "TriangularLinearOperator" and c.args:
+                        arg = inline(c.args[0], env)
+                        p = _raw_param_in(arg)
+                        if p is None:
+                            continue
+                        site = sites.setdefault(id(c), (c, p, []))
+                        if not _masked(arg):
+                            cond = " and ".join("%s is %s" % (src(s_.node)[:40], s_.truth) for s_ in path.steps if s_.kind == "assume")
+                            site[2].append(cond or "always")
+        for c, p, bad in sites.values():
+            n += 1
+            ok = not bad
+            rep.add("C14-6", "%s:%s:TriangularLinearOperator(%s)" % (fi.module.name, fi.qualname, p), "%s:%d" % (fi.module.relpath, c.lineno), ok,
+                    "on every path the raw factor passes through the lower-triangular mask" if ok else
+                    "TriangularLinearOperator(%s) is built from the raw parameter `%s` without the lower-triangular mask (%s): matmul/to_dense read the strict upper triangle, so this reader sees a different q(u) than the masked one (%s)" % (src(c.args[0])[:50], p, "when " + sorted(set(bad))[0] if sorted(set(bad))[0] != "always" else "on every path", RAW_FACTOR_PARAMS[p]), {})
+    rep.floor("C14-6", "triangular operators built from the raw Cholesky parameter", n, 3)
+    vd = idx.find_class("_VariationalDistribution")
+    k = 0
+    for cc in idx.subclasses(vd):
+        fw = cc.methods.get("forward")
+        if fw is None:
+            continue
+        k += 1
+        sn = fw.params[0]
+        reads = [x for x in ast.walk(fw.node) if isinstance(x, ast.Attribute) and x.attr == "training" and isinstance(x.value, ast.Name) and x.value.id == sn]
+        rep.add("C14-6", "%s:%s.forward[mode]" % (cc.module.name, cc.qualname), fw.where, not reads,
+                "q(u) does not depend on the training flag" if not reads else
+                "forward branches on self.training (line %d): the same parameters encode a different q(u) in training and in evaluation mode" % reads[0].lineno, {})
+    rep.floor("C14-6", "variational distribution forwards", k, 5)
